@@ -23,10 +23,14 @@ import (
 func init() { register("C03", false, checkC03) }
 
 type c03 struct {
-	c    *Ctx
-	ptT  types.Type
-	summ map[*types.Func]parity
-	busy map[*types.Func]bool
+	c          *Ctx
+	ptT        types.Type
+	summ       map[*types.Func]parity
+	busy       map[*types.Func]bool
+	summ2      map[sumKey]parity
+	busy2      map[sumKey]bool
+	assume     map[sumKey]parity
+	usedAssume map[sumKey]bool
 }
 
 func checkC03(c *Ctx) {
@@ -35,7 +39,7 @@ func checkC03(c *Ctx) {
 	c.Rule("C03.R3", "MultiPolygon.Area, MultiLineString.Length/Distance fold every member (full range, no skip); Length adds from 0, Distance takes min from +Inf")
 	c.Rule("C03.R5", "axis discipline of the coordinate predicates the measures rely on (hole detection by box and point-in-ring tests, on-segment pre-tests): no comparison relates an X ordinate to a Y ordinate")
 	c.Rule("C03.R4", "point-to-segment distance: at the foot point S + b·(E−S) the projection parameter satisfies 0 ≤ b ≤ 1 on every path (otherwise the end points are returned), and the division producing b has a non-zero divisor (zero-length segments cannot yield NaN)")
-	a := &c03{c: c, ptT: c.P.NamedType("geom", "Point"), summ: map[*types.Func]parity{}, busy: map[*types.Func]bool{}}
+	a := &c03{c: c, ptT: c.P.NamedType("geom", "Point"), summ: map[*types.Func]parity{}, busy: map[*types.Func]bool{}, summ2: map[sumKey]parity{}, busy2: map[sumKey]bool{}, assume: map[sumKey]parity{}, usedAssume: map[sumKey]bool{}}
 	a.r1()
 	a.r2()
 	a.r3()
@@ -766,9 +770,12 @@ func isFloatT(t types.Type) bool {
 }
 
 // crossRing: in perRing mode, is v declared outside the ring loop?
-func (c *parClient) crossRing(v types.Object) bool {
+func (c *parClient) crossRing(v types.Object, at ast.Node) bool {
 	if !c.perRing || c.ringLoop == nil {
 		return false
+	}
+	if !(c.ringLoop.Body.Pos() <= at.Pos() && at.End() <= c.ringLoop.Body.End()) {
+		return false // the accumulation is not inside the loop over rings
 	}
 	return !(c.ringLoop.Body.Pos() <= v.Pos() && v.Pos() <= c.ringLoop.Body.End())
 }
@@ -809,7 +816,7 @@ func (c *parClient) expr(e ast.Expr, s parState) parity {
 			return p
 		}
 		if f != nil && c.a.c.P.Decl(f) != nil {
-			return c.a.summary(f)
+			return c.a.summary(f, c.perRing)
 		}
 		// pure function of its arguments
 		p := pEven
@@ -847,6 +854,42 @@ func (c *parClient) expr(e ast.Expr, s parState) parity {
 		return p
 	}
 	return pEven
+}
+
+// memberLoop: st lies in a loop that ranges over member geometries (elements that are
+// polygons, line strings or Geom values — not the rings of one polygon, whose signed
+// sum is meaningful) and the accumulator o is declared outside that loop.
+func (c *parClient) memberLoop(st ast.Node, o types.Object) string {
+	for _, anc := range enclosing(c.body, st) {
+		rs, ok := anc.(*ast.RangeStmt)
+		if !ok {
+			continue
+		}
+		if rs.Body.Pos() <= o.Pos() && o.Pos() <= rs.Body.End() {
+			continue
+		}
+		t := c.info.TypeOf(rs.X)
+		if t == nil {
+			continue
+		}
+		var elem types.Type
+		switch u := t.Underlying().(type) {
+		case *types.Slice:
+			elem = u.Elem()
+		case *types.Array:
+			elem = u.Elem()
+		}
+		if elem == nil {
+			continue
+		}
+		if n := named(elem); n != nil && n.Obj().Pkg() != nil && n.Obj().Pkg().Path() == modPath {
+			switch n.Obj().Name() {
+			case "Polygon", "MultiPolygon", "Geom", "Polygonal", "GeometryCollection":
+				return "members of " + types.TypeString(t, func(p *types.Package) string { return p.Name() })
+			}
+		}
+	}
+	return ""
 }
 
 // summandParity: the polynomial parity of a fold step over consecutive vertices.
@@ -967,7 +1010,10 @@ func (c *parClient) Stmt(n ast.Node, s parState) parState {
 			case token.DEFINE, token.ASSIGN:
 				s[o] = r
 			case token.ADD_ASSIGN, token.SUB_ASSIGN:
-				if c.crossRing(o) && (r == pOdd || r == pMixed) {
+				if ml := c.memberLoop(st, o); ml != "" && (r == pOdd || r == pMixed || r == pEither) {
+					s[o] = pMixed
+					c.notes = append(c.notes, fmt.Sprintf("`%s` adds a value that changes sign with the winding of one member (%s) into `%s`, which accumulates across the %s: members wound in opposite directions cancel", src(st), r, o.Name(), ml))
+				} else if c.crossRing(o, st) && (r == pOdd || r == pMixed) {
 					s[o] = pMixed
 					c.notes = append(c.notes, fmt.Sprintf("`%s` adds a value that changes sign with the winding of the current ring (%s) into `%s`, which accumulates across rings", src(st), r, o.Name()))
 				} else {
@@ -1039,25 +1085,49 @@ func (a *c03) analyse(fn *types.Func, perRing bool) *parClient {
 	return cl
 }
 
-func (a *c03) summary(fn *types.Func) parity {
+type sumKey struct {
+	fn      *types.Func
+	perRing bool
+}
+
+// summary: parity of fn's float/Point results.  In perRing mode the callee is analysed
+// per ring as well (a helper that sums orientation-odd ring quantities is not invariant
+// under the reversal of one ring even if it is under the reversal of all).  Recursive
+// functions are solved by iteration from "zero" (the recursive call contributes nothing)
+// until the assumed and the computed parity agree.
+func (a *c03) summary(fn *types.Func, perRing bool) parity {
 	fn = fn.Origin()
-	if p, ok := a.summ[fn]; ok {
+	key := sumKey{fn, perRing}
+	if p, ok := a.summ2[key]; ok {
 		return p
 	}
-	if a.busy[fn] {
-		return pEven // recursion (op.Area over nested collections): assume, then confirm by the outer result
+	if a.busy2[key] {
+		a.usedAssume[key] = true
+		if p, ok := a.assume[key]; ok {
+			return p
+		}
+		return pZero
 	}
-	a.busy[fn] = true
-	cl := a.analyse(fn, false)
+	a.busy2[key] = true
+	a.assume[key] = pZero
 	p := pUnset
-	for _, r := range cl.results {
-		p = parJoin(p, r)
+	for iter := 0; iter < 5; iter++ {
+		a.usedAssume[key] = false
+		cl := a.analyse(fn, perRing)
+		p = pUnset
+		for _, r := range cl.results {
+			p = parJoin(p, r)
+		}
+		if p == pUnset {
+			p = pEven
+		}
+		if !a.usedAssume[key] || p == a.assume[key] {
+			break
+		}
+		a.assume[key] = p
 	}
-	if p == pUnset {
-		p = pEven
-	}
-	a.busy[fn] = false
-	a.summ[fn] = p
+	a.busy2[key] = false
+	a.summ2[key] = p
 	return p
 }
 
